@@ -100,7 +100,7 @@ def gen_decl(rng, names: Names, depth: int, parent_ns, opts) -> dict:
     if shape < 0.66 and opts.get("mixed", True):
         inl = [gen_decl(rng, names, 99, ns, opts) for _ in range(rng.randint(1, 2))]
         for d in inl:
-            d["kind"], d["style"], d["nillable"], d["empty"] = "string", 0, False, False
+            d["kind"], d["style"], d["nillable"], d["empty"] = "string", 0, False, rng.random() < opts.get("inline_empty", 0.3)
         return {"name": name, "ns": ns, "shape": "mixed", "attrs": attrs, "inline": inl}
     parts = []
     for _ in range(rng.randint(1, 4)):
@@ -148,7 +148,7 @@ def instance(rng, d: dict, rep_min: int = 1) -> dict:
     elif d["shape"] == "mixed":
         words = ["some ", "text, ", "more", " and ", "end."]
         bare = rng.random() < 0.3  # an occurrence of the mixed element that happens to hold elements only
-        el["t"] = None if bare else rng.choice(words)
+        el["t"] = None if bare or rng.random() < 0.3 else rng.choice(words)  # sometimes only tails carry text
         picks = [rng.randrange(len(d["inline"])) for _ in range(rng.randint(1, 3))]
         if bare:
             picks.sort()  # without any text the element is element-only: keep the declared order
